@@ -71,7 +71,7 @@ func runCase(line string) string {
 		return runSanLine(line, "")
 	case strings.HasPrefix(line, "TOPO "):
 		return runTopoLine(line)
-	case strings.HasPrefix(line, "ORD "):
+	case strings.HasPrefix(line, "ORD "), strings.HasPrefix(line, "ORDX "):
 		return runOrdLine(line)
 	}
 	return "BADCASE"
